@@ -72,9 +72,9 @@ claimed = {
   note="gc defines the order; build mode exe only; the relative order of packages that do not depend on one another is a listed finding and is compared per package in that case.",
   design="§3 C12"),
  "C08": dict(
-  technique="property-based testing (rapid): three-way agreement of layout computations over generated go/types types on six targets",
-  text="rapid builds types from a recursive grammar and, for linux/amd64, arm64, riscv64, 386, arm and wasip1/wasm, compares the numbers that fold unsafe.Sizeof/Alignof/Offsetof, the LLVM data layout generated code uses, and what the descriptor builder records. Exploration only; in-process (no code of the 32-bit targets is executed).",
-  note="Three classes of disagreement are genuine findings listed in known_findings.json (64-bit scalars on 32-bit targets, trailing zero-size fields, wasm nested structs) and are keyed separately; host-C-compiler agreement is not yet part of this check.",
+  technique="property-based testing (rapid): three-way agreement of layout computations over generated go/types types on six targets; differential against the C compiler (clang sizeof/_Alignof/offsetof per target) for generated C-compatible structs",
+  text="rapid builds types from a recursive grammar and, for linux/amd64, arm64, riscv64, 386, arm and wasip1/wasm, compares the numbers that fold unsafe.Sizeof/Alignof/Offsetof, the LLVM data layout generated code uses, and what the descriptor builder records. A third job generates C-compatible struct shapes (all integer widths, float/double, _Bool, pointers, arrays, nested structs) as a Go type and a C declaration and compares all three computations with the sizeof/_Alignof/offsetof constants clang emits for the same target (host x86-64 and, through -target, the other five). Exploration only; in-process (no code of the 32-bit targets is executed).",
+  note="Three classes of disagreement are genuine findings listed in known_findings.json (64-bit scalars on 32-bit targets, trailing zero-size fields, wasm nested structs) and are keyed separately; the C comparison skips (and counts) the shapes on which the three computations already disagree among themselves (64-bit scalars on 32-bit targets, nested structs on wasm).",
   design="§3 C08"),
  "C01": dict(
   technique="differential testing of rapid-generated multi-package programs (template grammar over the core language) against gc, compared per unit",
